@@ -1354,10 +1354,27 @@ def Generate(inp, tab, ev):
         if inp.get("json") and data["MASTER"]["mnemonic"] is not None:
             # the library's JSON rendering, parsed by TLC's own JSON reader (Gson) and compared with the tree
             p = os.path.join(_tlc.scratch_dir("json"), "wallet.json")
-            with open(p, "w") as f:
-                f.write(w.json(data) if inp["json"] is True else w.json(data, indent=int(inp["json"])))
-            ev["jsonfile"] = p
-            ev["tree"] = data
+            text = w.json(data) if inp["json"] is True else w.json(data, indent=int(inp["json"]))
+            def skel(x):
+                if isinstance(x, dict):
+                    return {k_: skel(v_) for k_, v_ in x.items()}
+                if isinstance(x, (list, tuple)):
+                    return [skel(v_) for v_ in x]
+                return type(x).__name__
+            try:
+                back = _json.loads(text)
+                if skel(back) != skel(_json.loads(_json.dumps(data))):
+                    # a value changed its KIND (a string became a list ...): TLC cannot compare values of different kinds
+                    ev["jsonbad"] = True
+                    raise KeyError
+                with open(p, "w") as f:
+                    f.write(text)
+                ev["jsonfile"] = p
+                ev["tree"] = data
+            except KeyError:
+                pass
+            except ValueError:
+                ev["jsonbad"] = True           # not even well-formed JSON (TLC's reader is not given the file)
         return out
     ok, v = call(go)
     ev["res"] = res_of(ok, v)
